@@ -1,0 +1,32 @@
+//go:build verif
+
+// Contracts for govc (the /verif contract verifier). Comment-only: with the build tag off this file is not
+// compiled, with it on it adds no code.
+package table_valued_functions
+
+//@ spec ZERO() int = 0 - 62135596800000000000
+
+// C20 max_diff_watermark.
+//@ func (*maxDifferenceWatermarkGenerator).Run
+//@   stream 1 assumes resolution.Duration > 0 && maxDifference.Duration >= 0
+//@   stream 1 assumes len(IN) > 0 ==> 0 <= m.timeFieldIndex && m.timeFieldIndex < len(IN[len(IN)-1].Values)
+//@   stream 1 assumes len(INM) > 0 ==> INM[len(INM)-1].Type == 0
+//@   stream 1 invariant initial: len(OUTM) == 0 ==> maxValue.ns == ZERO() && curWatermark.ns == ZERO()
+//@   stream 1 invariant current: len(OUTM) > 0 ==> OUTM[len(OUTM)-1].Watermark.ns == curWatermark.ns && curWatermark.ns == maxValue.ns - maxDifference.Duration && OUTM[len(OUTM)-1].Type == 0
+//@   stream 1 invariant increasing: forall(j, 1, len(OUTM), OUTM[j-1].Watermark.ns < OUTM[j].Watermark.ns)
+//@   stream 1 invariant nofabrication: len(OUT) <= len(IN)
+//@   ensures increasing: forall(j, 1, len(OUTM), OUTM[j-1].Watermark.ns < OUTM[j].Watermark.ns)
+//@   ensures errprop: cbErr != nil ==> result != nil
+
+// C21 tumble.
+//@ spec lastOut() Record = OUT[len(OUT)-1]
+//@ spec lastIn() Record = IN[len(IN)-1]
+//@ func (*tumble).Run
+//@   stream 1 assumes windowLength.Duration > 0 && offset.Duration > 0 - 4611686018427387904 && offset.Duration < 4611686018427387904
+//@   stream 1 assumes len(IN) > 0 ==> 0 <= t.timeFieldIndex && t.timeFieldIndex < len(lastIn().Values)
+//@   stream 1 invariant passthrough: len(OUT) == len(IN) && len(OUTM) == len(INM)
+//@   stream 1 invariant shape: len(OUT) > 0 ==> len(lastOut().Values) == len(lastIn().Values) + 2 && lastOut().Retraction == lastIn().Retraction && lastOut().EventTime.ns == lastIn().EventTime.ns
+//@   stream 1 invariant types: len(OUT) > 0 ==> lastOut().Values[len(lastIn().Values)].TypeID == 5 && lastOut().Values[len(lastIn().Values)+1].TypeID == 5
+//@   stream 1 invariant window: len(OUT) > 0 ==> lastOut().Values[len(lastIn().Values)].Time.ns <= lastIn().Values[t.timeFieldIndex].Time.ns && lastIn().Values[t.timeFieldIndex].Time.ns < lastOut().Values[len(lastIn().Values)+1].Time.ns
+//@   stream 1 invariant length: len(OUT) > 0 ==> lastOut().Values[len(lastIn().Values)+1].Time.ns - lastOut().Values[len(lastIn().Values)].Time.ns == windowLength.Duration
+//@   ensures errprop: cbErr != nil ==> result != nil
